@@ -15,7 +15,7 @@ def gen_config(rng, *, kinds=None, scheduler=None, loss_kinds=None, max_params=4
                max_points=40, ensemble=None, conv=None, params=None):
     P = int(rng.integers(1, max_params + 1)) if params is None else int(params)
     sd = G.gen_space(rng, dims=P, max_points=max_points)
-    D = int(rng.integers(1, 4)) if model in ("plain", "mut", "slow") else (int(rng.integers(1, 3)) if model == "huge" else 1)
+    D = int(rng.integers(1, 4)) if model in ("plain", "mut", "slow", "globalrng") else (int(rng.integers(1, 3)) if model == "huge" else 1)
     lk = str(rng.choice(loss_kinds or LOSS_KINDS))
     n_lo = max(12, -(-(P + M.HEADER) // D))
     N = int(rng.integers(n_lo, n_lo + 14))
@@ -63,7 +63,8 @@ def build_scheduler(cfg, samplers):
     from black_it.schedulers.round_robin import RoundRobinScheduler
 
     if cfg["scheduler"] == "rr":
-        return RoundRobinScheduler(samplers)
+        # the user may seed the scheduler it builds - e.g. with the same number as the calibrator ("one seed everywhere")
+        return RoundRobinScheduler(samplers, random_state=cfg.get("sched_ctor_seed"))
     if cfg["scheduler"] == "rl":
         from black_it.schedulers.rl.agents.epsilon_greedy import MABEpsilonGreedy
         from black_it.schedulers.rl.envs.mab import MABCalibrationEnv
@@ -72,7 +73,7 @@ def build_scheduler(cfg, samplers):
         n = len(samplers)
         agent = MABEpsilonGreedy(n_actions=n, alpha=cfg["rl"]["alpha"], eps=cfg["rl"]["eps"], initial_values=cfg["rl"]["init"])
         env = MABCalibrationEnv(nb_samplers=n)
-        return RLScheduler(samplers, agent=agent, env=env)
+        return RLScheduler(samplers, agent=agent, env=env, random_state=cfg.get("sched_ctor_seed"))
     raise ValueError(cfg["scheduler"])
 
 
